@@ -927,6 +927,16 @@ def np_sort(E, fv, st, node, prog):
     return a
 
 
+def np_random_randint(E, fv, st, node, prog):
+    (n,) = _args(fv, st, node, prog, 1)
+    USED.add("np.random.randint(n): an integer in [0, n)")
+    n = fv.as_int(n).e
+    fv.oblige("pre@randint", fv.stmt_anchor(node), n >= 1, st, node)
+    k = fv.fresh_int("randint")
+    st.assume(z3.And(k >= 0, k < n))
+    return SInt(k)
+
+
 def np_random_rand(E, fv, st, node, prog):
     USED.add("np.random.rand/random: a float in [0,1)")
     u = fv.fresh("u", R)
@@ -1003,8 +1013,17 @@ def mask_select(E, fv, st, base, mask, node, prog):
     if prog:
         fv.oblige("shape-match", fv.stmt_anchor(node), bshp[0] == n, st, node)
     mt0 = fv.arr_term(st, mask)
-    mt = fv.fresh("mask", z3.ArraySort(I, B))
     p = fv.fresh_int("p")
+    # one name per mask array (two selections with the same mask share it, and its rank function)
+    mcache = getattr(fv, "_mask_names", None)
+    if mcache is None:
+        mcache = fv._mask_names = {}
+    mkey = (mask.loc, mask.prefix, id(st.heap[mask.loc]))
+    if mkey in mcache:
+        mt = mcache[mkey]
+    else:
+        mt = fv.fresh("mask", z3.ArraySort(I, B))
+        mcache[mkey] = mt
     st.assume(z3.ForAll([p], z3.Select(mt, p) == z3.Select(mt0, p), patterns=[z3.Select(mt, p)]))
     sd = E.db.specs.get("BCOUNT")
     if sd is None:
@@ -1150,6 +1169,7 @@ EXTERNALS = {
     "numpy.sort": np_sort,
     "numpy.expand_dims": np_expand_dims,
     "numpy.random.rand": np_random_rand,
+    "numpy.random.randint": np_random_randint,
     "numpy.random.random": np_random_rand,
     "numpy.random.seed": np_random_seed,
     "mchap.jitutils.random_choice": random_choice,
